@@ -430,7 +430,18 @@ inline int vmain(int argc, char **argv, const std::string &property_id,
     VCase lastfail;
     std::string lastmsg;
     const auto t0 = std::chrono::steady_clock::now();
+    std::chrono::steady_clock::time_point shrink_start;
+    const double shrink_budget_s =
+        getenv("VERIF_SHRINK_S") ? atof(getenv("VERIF_SHRINK_S")) : 120.;
     const auto result = rc::detail::checkTestable([&]() {
+      if (shrinking &&
+          std::chrono::duration<double>(std::chrono::steady_clock::now() -
+                                        shrink_start)
+                  .count() > shrink_budget_s) {
+        // shrink budget exhausted: everything else "passes", so the library
+        // settles on the smallest failing case found so far
+        return;
+      }
       VCase c = p.gen();
       c.prop = p.name;
       VResult r;
@@ -471,6 +482,8 @@ inline int vmain(int argc, char **argv, const std::string &property_id,
         }
       }
       if (!r.ok) {
+        if (!shrinking)
+          shrink_start = std::chrono::steady_clock::now();
         shrinking = true;
         lastfail = c;
         lastmsg = r.msg;
